@@ -3,10 +3,12 @@ package pure
 // C17 — malformed requests are rejected with an error, never with a crash or a hang.
 
 import (
+	"connectrpc.com/connect"
 	"context"
 	"errors"
 	"fmt"
 	"runtime"
+	"strings"
 	"testing"
 	"time"
 
@@ -346,6 +348,14 @@ func runC17(c c17Case) (out c17Outcome, f *ev.Failure) {
 	rd, _, err := pipeline.BuildRequestDetails(context.Background(), req, final, resolver, func() (uint64, error) { return 30, nil }, c.Seg)
 	if err != nil {
 		out.step = step
+		// the code the client receives: the error as Tier1Service.blocks wraps it, through the service's own mapping;
+		// a rejection caused by the request (not by the environment: no final or head block known) is invalid-argument
+		if msg := err.Error(); !strings.Contains(msg, "recent finalized block") && !strings.Contains(msg, "resolving negative start block") {
+			mapped := service.VerifToConnectError(context.Background(), fmt.Errorf("build request details: %w", err))
+			if code := connect.CodeOf(mapped); code != connect.CodeInvalidArgument {
+				f = ev.Failf("reject/wrong-code/BuildRequestDetails", "the request is rejected with code %v instead of invalid_argument: %v", code, mapped)
+			}
+		}
 		return
 	}
 	if rd.ResolvedStartBlockNum == req.StopBlockNum && req.StopBlockNum != 0 {
@@ -365,6 +375,8 @@ func runC17(c c17Case) (out c17Outcome, f *ev.Failure) {
 	}
 	if _, err := plan.BuildTier1RequestPlan(rd.ProductionMode, c.Seg, eg.LowestInitBlock(), lowestStores, rd.ResolvedStartBlockNum, rd.LinearHandoffBlockNum, rd.StopBlockNum, scheduleStores); err != nil {
 		out.step = step
+		mapped := service.VerifToConnectError(context.Background(), fmt.Errorf("error building request plan: %w", err))
+		ev.Get("C17", "Requests").Count("plan-rejection-code="+connect.CodeOf(mapped).String(), 1)
 		return
 	}
 	out.step = "accepted"
@@ -406,7 +418,7 @@ func checkC17(c c17Case) *ev.Failure {
 }
 
 func TestC17(t *testing.T) {
-	ev.Get("C17", "Requests").Rule = "rapid, structure-aware: tier1 Request / tier2 ProcessRangeRequest with every field of every module free (absent kinds and oneofs, dangling/self/cyclic references, duplicate and empty names, out-of-range and huge binary indexes, filters on non-index modules, huge initial blocks, arbitrary start/stop/cursor) or a valid generated graph with one field broken; the server's sequence ValidateTier{1,2}Request -> exec.NewOutputModuleGraph -> BuildRequestDetails -> BuildTier1RequestPlan, each only if the previous accepted, must return without panic within 10 s and < 256 MiB allocated; non-trivial = rejected by a step after the first, or accepted with >= 3 modules; outcome histogram under counters"
+	ev.Get("C17", "Requests").Rule = "rapid, structure-aware: tier1 Request / tier2 ProcessRangeRequest with every field of every module free (absent kinds and oneofs, dangling/self/cyclic references, duplicate and empty names, out-of-range and huge binary indexes, filters on non-index modules, huge initial blocks, arbitrary start/stop/cursor) or a valid generated graph with one field broken; the server's sequence ValidateTier{1,2}Request -> exec.NewOutputModuleGraph -> BuildRequestDetails -> BuildTier1RequestPlan, each only if the previous accepted, must return without panic within 10 s and < 256 MiB allocated, and a request-caused rejection of BuildRequestDetails must map to invalid_argument through the service's own error mapping; non-trivial = rejected by a step after the first, or accepted with >= 3 modules; outcome histogram under counters"
 	r := ev.Get("C17", "Requests")
 	rapid.Check(t, func(rt *rapid.T) {
 		c := genC17(rt)
